@@ -23,6 +23,28 @@ CLAIMS = {
         "technique": "TLA+ step machine of variable elimination model-checked with TLC; behaviours replayed on the code; hook traces validated by TLC",
         "design_ref": "6/C01",
     },
+    "C04": {
+        "text": ("The factor algebra is specified as an object store with exact rational values (spec/FactorAlg.tla): every operation is the "
+                 "pointwise definition on named assignments, in-place variants replace exactly the target, out-of-place variants append a "
+                 "fresh object. TLC enumerates every enabled single operation on pools of base factors, samples depth-4 sequences, checks "
+                 "algebraic laws of the oracle, and each behaviour (with the expected projection of the WHOLE store after every step) is "
+                 "replayed on DiscreteFactor under random axis orders, state-label types, hash seeds and both back-ends; random 8-step "
+                 "sequences recorded from the code (incl. operations outside the precondition) are validated by TLC (Trace_C04)."),
+        "note": "Values are small rationals; NaN arithmetic unspecified; scopes <=3 vars (Gen) / <=5 (Trace); float compare 1e-9.",
+        "technique": "TLA+ object-store spec of factor algebra; TLC-generated behaviours replayed on the code; TLC trace validation",
+        "design_ref": "6/C04",
+    },
+    "C05": {
+        "text": ("A CPD object is specified by its meaning (value per named assignment) plus the 2-D layout rule (column j = j-th parent "
+                 "configuration, row-major over the declared evidence list); TLC enumerates every parent permutation, every subset/state of "
+                 "parents to marginalise/reduce, normalise/copy/to_factor/get_values, in- and out-of-place, to depth 2, and every behaviour "
+                 "is replayed on TabularCPD comparing after each step the meaning, parent order, state names and get_values() of every live "
+                 "object. Validation: TLC injects every single defect into small valid models, evaluates the five-clause Valid predicate and "
+                 "check_model must accept exactly the valid ones; Valid => joint sums to 1 is checked as a lemma."),
+        "note": "child card 1-3, <=3 parents of card 1-3; marginalising a parent follows the code's documented uniform mixing; tolerance probed away from boundary.",
+        "technique": "TLA+ spec of CPD meaning/layout + validation predicate; exhaustive TLC generation replayed on the code",
+        "design_ref": "6/C05",
+    },
 }
 
 NOT_APPLICABLE = {}
